@@ -471,7 +471,7 @@ fn main() {
                 } else {
                     "?".to_string()
                 };
-                if msg.starts_with("harness") || msg.contains("arg") {
+                if msg.starts_with("harness") || msg.starts_with("i32 arg") || msg.starts_with("i64 arg") {
                     writeln!(out, "harness-error {}", msg).unwrap();
                 } else if verbose {
                     writeln!(out, "panic {}", msg.replace('\n', " ")).unwrap();
